@@ -188,15 +188,19 @@ def handle (op : String) (args : List String) (impl : String) : Option Verdict :
     let nsub := a.subs.length
     let big := spec.splitOn ":" |>.any fun x => match x.splitOn "+" with | n :: _ => (n.splitOn ";").head?.bind String.toNat? |>.any (· > 3000) | _ => false
     let closes := a.ops.any fun o => match o with | .close _ => true | _ => false
-    let tag := s!"run:wf={wfOk}:fresh={freshOk}:big={big}:close={closes}:subs={min nsub 3}:dashed={a.subs.any fun x => x.1.contains dash}:live={min a.r.st.length 3}:cancel={a.ops.any fun o => match o with | .unsub _ => true | _ => false}"
+    let preLen := (wfPrefix a.ops).length
+    let tag := s!"run:wf={wfOk}:prefix={if preLen == a.ops.length then "all" else if preLen == 0 then "0" else "part"}:fresh={freshOk}:big={big}:close={closes}:subs={min nsub 3}:dashed={a.subs.any fun x => x.1.contains dash}:live={min a.r.st.length 3}:cancel={a.ops.any fun o => match o with | .unsub _ => true | _ => false}"
     -- the property predicate on the implementation's observations: fresh identifiers ∧ exact deliveries ∧ exact
     -- retention (no claim for histories with undeclared types or foreign ids)
-    let ok := !wfOk || (match implParts, implDeliveries ws implRes with
+    -- the property predicate on the implementation's observations, evaluated up to the first operation that leaves the
+    -- theorems' hypotheses (foreign id string / undeclared type): fresh identifiers ∧ exact deliveries, and exact
+    -- retention when the whole history stays inside (PPrefix; theorem refines_prefix)
+    let ok := match implParts, implDeliveries ws implRes with
       | [_, ret], some dels =>
         (match implRetained ret with
-         | some live => a.idsOk && PFull a.ops dels live && !impl.contains '!'
+         | some live => a.idsOk && PPrefix a.ops dels live && !impl.contains '!'
          | none => false)
-      | _, _ => false)
+      | _, _ => false
     return ⟨m, ok, tag⟩
   | _, _ => none
 
